@@ -344,6 +344,21 @@ func c09QtyCheck(env *core.Env, a, op, b string) {
 		return
 	}
 	same := ma.Unit == mb.Unit
+	if op == "=" || op == "!=" || op == "<" || op == ">=" {
+		// comparable only within one unit (different spellings of one duration are left open)
+		related := unitFam(ma.Unit) != "non-temporal" && strings.Split(unitFam(ma.Unit), ":")[0] == strings.Split(unitFam(mb.Unit), ":")[0]
+		if !same && !related && !r.Empty() && !r.IsError() {
+			env.Violatef("C09/quantity/"+op+"/different-units-decided", "`%s`: quantities of different units have no defined comparison, observed %s", src, trunc(r.Short(), 80))
+		}
+		if same {
+			c := ma.N.Cmp(mb.N)
+			want := map[string]bool{"=": c == 0, "!=": c != 0, "<": c < 0, ">=": c >= 0}[op]
+			if r.Bool3() != fmt.Sprint(want) {
+				env.Violatef("C09/quantity/"+op+"/wrong-comparison", "`%s`: expected %v, observed %s", src, want, trunc(r.Short(), 80))
+			}
+		}
+		return
+	}
 	if op == "+" || op == "-" {
 		if !same {
 			// different spellings of one duration are left open
@@ -454,7 +469,7 @@ func c09Quantities(env *core.Env) {
 	n := 0
 	for _, a := range qs {
 		for _, b := range qs {
-			for _, op := range []string{"+", "-"} {
+			for _, op := range []string{"+", "-", "=", "!=", "<", ">="} {
 				n++
 				if env.Mine(n) {
 					c09QtyCheck(env, a, op, b)
